@@ -17,7 +17,9 @@ template <int DIM, int ORDER> struct PPWorld {
   static const std::vector<DS> &datasets() {
     static std::vector<DS> ds;
     if (ds.empty()) {
-      const int ncbig = ORDER == Eigen::Dynamic ? 6 : (ORDER >= 12 ? 10 : 6);
+      // two larger coefficient counts: for Dynamic / ORDER 12 both lie beyond the static factor table (8), so a table built for one
+      // is met by an update to a LARGER count (seeded change C11-m1 needs exactly that)
+      const int ncbig = (ORDER == Eigen::Dynamic || ORDER >= 12) ? 10 : 6, ncbig2 = (ORDER == Eigen::Dynamic || ORDER >= 12) ? 12 : 8;
       auto mk = [&](int n, int nc, double b0, double step, int salt, bool valid, int extra_rows) {
         DS d; d.nc = nc; d.valid = valid;
         for (int i = 0; i <= n; ++i) d.b.push_back(b0 + step * i + 0.125 * (i % 2));
@@ -31,17 +33,18 @@ template <int DIM, int ORDER> struct PPWorld {
       ds.push_back(mk(3, ncbig, -1.0, 1.0, 3, true, 0));  // c: other coefficient count
       { DS d; d.nc = 4; d.valid = false; d.b = {0.5}; d.C.resize(0, DIM); ds.push_back(d); }  // bad: one breakpoint
       ds.push_back(mk(3, 4, -1.0, 1.0, 4, false, 1));     // bad2: coefficient rows off by one
+      ds.push_back(mk(3, ncbig2, -1.0, 1.0, 5, true, 0)); // d: even more coefficients
     }
     return ds;
   }
   std::unique_ptr<PP> X, Y; int mx = -1, my = -1;
   PPWorld() : X(new PP()), Y(new PP()) {}
-  int nops() const { return 19; }
+  int nops() const { return 20; }
   bool enabled(int) const { return true; }
   std::string opname(int op) const {
     static const char *n[] = {"X.update(a)", "X.update(a2 same shape)", "X.update(b more segments)", "X.update(c more coeffs)", "X.update(bad: 1 breakpoint)", "X.update(bad: row count)",
                               "X.evaluate(k=0)", "X.evaluate(k=1)", "X.evaluate(k=top)", "X.evaluate(k=beyond)", "X.evaluate(hinted,k=1)", "X.derivative(1).evaluate", "Y = X", "Y = PP(X) copy-ctor", "X = X",
-                              "swap roles X<->Y", "Y.evaluate(k=1)", "Y.update(b)", "X.derivative(2) kept as Y"};
+                              "swap roles X<->Y", "Y.evaluate(k=1)", "Y.update(b)", "X.derivative(2) kept as Y", "X.update(d even more coeffs)"};
     return n[op];
   }
   void apply(int op) {
@@ -61,6 +64,7 @@ template <int DIM, int ORDER> struct PPWorld {
     else if (op == 16) (void)Y->evaluate(Y->getStartTime() + 0.3 * Y->getDuration(), 1);
     else if (op == 17) { Y->update(ds[2].b, ds[2].C, ds[2].nc); my = 2; }
     else if (op == 18) { if (mx >= 0 && mx < 100) { PP d = X->derivative(2); *Y = d; my = 100 + mx; } }
+    else if (op == 19) { X->update(ds[6].b, ds[6].C, ds[6].nc); mx = 6; }
   }
   std::string canon() const { Canon c; canon_add(c, *X); canon_add(c, *Y); c.i(mx); c.i(my); return c.s; }
   static std::string check_obj(const PP &o, int m, const char *name, Canon &dg) {
